@@ -365,7 +365,7 @@ VALUE_MUTATIONS = {
 
 def _malformed(draw, rec) -> tuple:
     """(keyword, what): one token the grammar has no meaning for"""
-    choices = ['next-hop', 'originator-id', 'cluster-list', 'aggregator-address', 'path-information', 'attribute-data', 'prefix', 'med', 'local-preference', 'origin', 'originator-id-ipv6', 'aigp', 'as-path-token']
+    choices = ['next-hop', 'originator-id', 'cluster-list', 'aggregator-address', 'path-information', 'attribute-data', 'prefix', 'med', 'local-preference', 'origin', 'originator-id-ipv6', 'cluster-list-ipv6', 'aggregator-address-ipv6', 'aigp', 'as-path-token']
     if 'rd' in rec:
         choices += ['rd', 'rd']
     if 'labels' in rec:
@@ -390,6 +390,16 @@ def _malformed(draw, rec) -> tuple:
         lst = a['cluster_list']
         lst[draw(st.integers(0, len(lst) - 1))] = draw(st.sampled_from(BAD_V4))
         return 'cluster-list', 'malformed-address'
+    if what == 'cluster-list-ipv6':
+        # an address of the other family where the wire format holds four octets
+        _ensure_attr(draw, rec, 'cluster_list')
+        lst = a['cluster_list']
+        lst[draw(st.integers(0, len(lst) - 1))] = draw(st.sampled_from(['2001:db8::1', '::1', '::ffff:10.0.0.1']))
+        return 'cluster-list', 'ipv6-address'
+    if what == 'aggregator-address-ipv6':
+        _ensure_attr(draw, rec, 'aggregator')
+        a['aggregator'][1] = draw(st.sampled_from(['2001:db8::1', '::1']))
+        return 'aggregator', 'ipv6-address'
     if what == 'aggregator-address':
         _ensure_attr(draw, rec, 'aggregator')
         a['aggregator'][1] = draw(st.sampled_from(BAD_V4))
